@@ -23,13 +23,14 @@ ENCODED = ["twisted.logger._observer:LogPublisher.__call__", "twisted.logger._ob
            "twisted.logger._filter:FilteringLogObserver.__call__", "twisted.logger._filter:shouldLogEvent",
            "twisted.logger._buffer:LimitedHistoryLogObserver.__call__",
            "twisted.logger._buffer:LimitedHistoryLogObserver.replayTo"]
-BOUNDS = {"quick": {"obs": 3, "ev": 3, "ns": 4, "pfx": 3, "buf": 4},
-          "thorough": {"obs": 3, "ev": 4, "ns": 5, "pfx": 3, "buf": 6}}
+BOUNDS = {"quick": {"obs": 3, "ev": 3, "slots": 2, "ns": 4, "pfx": 3, "buf": 4},
+          "thorough": {"obs": 3, "ev": 4, "slots": 3, "ns": 5, "pfx": 3, "buf": 6}}
 B = {}
 BOUNDS_TEXT = ("publisher: <= obs observers (optionally one removed again, one registered twice), <= ev events, "
-               "every observer raises or not independently per event and on failure reports; filter: namespace "
+               "every observer has independent symbolic raise flags for each of the first slots-1 events, for all "
+               "later events together, and for failure reports; filter: namespace "
                "any string of <= ns characters, two configured prefixes any strings of <= pfx characters "
-               "(any characters, not only a/b/.) with three pairwise distinct levels and event level info/error, "
+               "(any characters, not only a/b/.) with three pairwise distinct levels and event levels info and error, "
                "events lacking level or namespace on short strings, and "
                "separately every (level, level, default, event level) combination on 6 fixed namespace "
                "configurations; history: size 0..buf or None, 0..buf+2 events")
@@ -103,9 +104,9 @@ class _PubWorld:
         self.events = [{"idx": k, "log_level": LogLevel.info, "log_namespace": "n"} for k in range(nev)]
 
     def raises(self, i, desc):
-        # plan: rz[4*i + k] for primary event k, rz[4*i + 3] for any failure report; event numbers
-        # beyond 2 reuse slot k % 3
-        slot = 4 * i + (desc[1] % 3 if desc[0] == "ev" else 3)
+        # plan of observer i: rz[4*i + k] for primary event k (events from number slots-1 on share
+        # one flag), rz[4*i + 3] for any failure report
+        slot = 4 * i + (min(desc[1], B["slots"] - 1) if desc[0] == "ev" else 3)
         return self.rz[slot] == 1
 
 
@@ -164,13 +165,12 @@ def pub_registry(nobs: int, rz: List[int], rem: int, dup: bool) -> bool:
 # ---- (b) level filter -----------------------------------------------------------------------------
 
 def _match(p, lp, ns, ln):
-    # p is a whole-component dotted prefix of ns
+    # p is a whole-component dotted prefix of ns (lp, ln: the concrete lengths)
     if lp > ln:
         return False
-    for i in range(lp):
-        if p[i] != ns[i]:
-            return False
-    return lp == ln or ns[lp] == "."
+    if lp == ln:
+        return p == ns
+    return ns[lp] == "." and ns[:lp] == p
 
 
 def _ref_level(ns, ln, p1, n1, l1, p2, n2, l2, dflt):
@@ -200,33 +200,32 @@ def _mkpred(dflt, p1, l1, p2, l2):
     return pred
 
 
-def _check_filter(pred, ns, hasl, hasn, elevel, exp_level):
+def _check_filter(pred, ns, hasl, hasn, elevel, exp_level, fan=True):
     event = {"k": 1}
     if hasl:
         event["log_level"] = elevel
     if hasn:
         event["log_namespace"] = ns
     got = pred(event)
-    pos, neg = [], []
-    FilteringLogObserver(pos.append, [pred], neg.append)(event)
     cover()
     if not hasl or not hasn or len(ns) == 0:
         want_pass = False        # documented: events without level or namespace are dropped
     else:
         want_pass = not (elevel < exp_level)
-        if pred.logLevelForNamespace(ns) is not exp_level:
-            return False
     if got is not (PredicateResult.maybe if want_pass else PredicateResult.no):
         return False
+    if not fan:
+        return True
+    pos, neg = [], []
+    FilteringLogObserver(pos.append, [pred], neg.append)(event)
     if want_pass:
         return len(pos) == 1 and pos[0] is event and neg == []
     return len(neg) == 1 and neg[0] is event and pos == []
 
 
-def flt_select(ns: str, p1: str, p2: str, ev: int) -> bool:
+def flt_select(ns: str, p1: str, p2: str) -> bool:
     """
     pre: len(ns) <= B['ns'] and len(p1) <= B['pfx'] and len(p2) <= B['pfx']
-    pre: ev == 1 or ev == 3
     post: _
     """
     # three pairwise distinct levels: which one comes back identifies the entry that was selected;
@@ -234,11 +233,13 @@ def flt_select(ns: str, p1: str, p2: str, ev: int) -> bool:
     ln = _conc(len(ns), 0, B["ns"])
     n1 = _conc(len(p1), 0, B["pfx"])
     n2 = _conc(len(p2), 0, B["pfx"])
-    ev = _conc(ev, 1, 3)
     l1, l2, dflt = LogLevel.debug, LogLevel.warn, LogLevel.critical
     pred = _mkpred(dflt, p1, l1, p2, l2)
     exp = _ref_level(ns, ln, p1, n1, l1, p2, n2, l2, dflt)
-    return _check_filter(pred, ns, True, True, LEVELS[ev], exp)
+    if ln > 0 and pred.logLevelForNamespace(ns) is not exp:
+        return False
+    return (_check_filter(pred, ns, True, True, LogLevel.info, exp, fan=False) and
+            _check_filter(pred, ns, True, True, LogLevel.error, exp, fan=False))
 
 
 def flt_missing(ns: str, p1: str, hasl: bool, hasn: bool, ev: int) -> bool:
@@ -308,9 +309,12 @@ def history_replay(size: int, n: int, unbounded: bool) -> bool:
 def _pub_shards(tier):
     no, ne = BOUNDS[tier]["obs"], BOUNDS[tier]["ev"]
     out = [("nobs == %d" % k,) for k in range(no)]
-    out += [("nobs == %d" % no, "nev == %d" % e) for e in range(ne - 1)]
-    for e in (ne - 1, ne):
-        for m in range(8):
+    split = () if tier == "quick" else (ne - 1, ne)
+    for e in range(ne + 1):
+        if e not in split:
+            out.append(("nobs == %d" % no, "nev == %d" % e))
+            continue
+        for m in range(8):     # thorough: case split over the first-event flags of the three observers
             out.append(("nobs == %d" % no, "nev == %d" % e) + tuple(
                 "rz[%d] %s 1" % (4 * i, "==" if (m >> i) & 1 else "!=") for i in range(3)))
     return out
